@@ -133,8 +133,8 @@ def inc_at(i, g):
     return g
 
 
-MATE_KINDS = ["id", "tail", "tail_swap", "new", "mixed", "setfit", "new_first"]
-MUT_KINDS = ["id", "inc", "new", "setfit", "new_touch"]
+MATE_KINDS = ["id", "tail", "tail_swap", "new", "mixed", "setfit", "new_first", "revert"]
+MUT_KINDS = ["id", "inc", "new", "setfit", "new_touch", "revert"]
 
 
 def cmk(k):
@@ -142,7 +142,7 @@ def cmk(k):
 
 
 def cuk(k):
-    if k[0] in ("inc", "new"):
+    if k[0] in ("inc", "new", "revert"):
         return "(UK_%s %s)" % (k[0], cnat(k[1]))
     return "UK_%s" % k[0]
 
@@ -172,6 +172,9 @@ def mate_impl(kind, a, b, mk):
     if name == "new_first":
         b[:] = cross(p, g2, g1)
         return mk(cross(p, g1, g2), (9,)), b
+    if name == "revert":        # like gp.staticLimit: both rewritten in place, first result is a new copy of the old a
+        a[:] = cross(p, g1, g2); b[:] = cross(p, g2, g1)
+        return mk(g1, f1), b
     raise AssertionError(kind)
 
 
@@ -191,6 +194,9 @@ def mut_impl(kind, a, mk):
     if name == "new_touch":
         a[:] = inc_at(0, g)
         return (mk(g, (3,)),)
+    if name == "revert":        # like gp.staticLimit: argument rewritten in place, result is a new copy of the old one
+        a[:] = inc_at(i, g)
+        return (mk(g, f),)
     raise AssertionError(kind)
 
 
@@ -257,17 +263,22 @@ def shares_buffer(a, b):
     return False
 
 
-def oracle(run, which, case, pop, before, pop_ids_before, outcome, varied_ids, lam, cxpb, mutpb, draws):
+def oracle(run, which, case, pop, before, pop_ids_before, outcome, varied_ids, lam, cxpb, mutpb, draws,
+           mate_same_twice=False):
     """The statement of C02 evaluated on one call; objects that cannot even be inspected as individuals
-    (no fitness, fitness without values, ...) are a violation, not a crash of the check."""
+    (no fitness, fitness without values, ...) are a violation, not a crash of the check.
+    mate_same_twice: toolbox.mate itself returned one object in both positions during this call (outside the
+    hypothesis of the pairwise clauses; the clauses about the inputs are still checked)."""
     try:
-        _oracle(run, which, case, pop, before, pop_ids_before, outcome, varied_ids, lam, cxpb, mutpb, draws)
+        _oracle(run, which, case, pop, before, pop_ids_before, outcome, varied_ids, lam, cxpb, mutpb, draws,
+                mate_same_twice)
     except Exception as e:      # noqa
         run.oracle_violation("%s returned objects that cannot be inspected as individuals (%s: %s)"
                              % (which, type(e).__name__, e), case)
 
 
-def _oracle(run, which, case, pop, before, pop_ids_before, outcome, varied_ids, lam, cxpb, mutpb, draws):
+def _oracle(run, which, case, pop, before, pop_ids_before, outcome, varied_ids, lam, cxpb, mutpb, draws,
+            mate_same_twice=False):
     """before: {id(parent): deep_snapshot}."""
     def bad(what, **obs):
         run.oracle_violation(what, case, observed=obs or None)
@@ -301,8 +312,12 @@ def _oracle(run, which, case, pop, before, pop_ids_before, outcome, varied_ids, 
     want = len(pop) if which == "varAnd" else max(int(lam), 0)
     if len(off) != want:
         bad("%s returned %d offspring, %d requested" % (which, len(off), want))
-    if len({id(o) for o in off}) != len(off):
-        bad("%s returned the same object more than once" % which)
+    if len({id(o) for o in off}) != len(off) and not mate_same_twice:
+        slots = {}
+        for idx, o in enumerate(off):
+            slots.setdefault(id(o), []).append(idx)
+        bad("%s returned the same object in several offspring slots" % which,
+            slots=[v for v in slots.values() if len(v) > 1])
     # (3) independent of every input individual
     parent_objs = {id(x): x for x in pop}.values()
     parent_mut = {}
@@ -317,6 +332,19 @@ def _oracle(run, which, case, pop, before, pop_ids_before, outcome, varied_ids, 
     fit_ids = [id(o.fitness) for o in off]
     if len(set(fit_ids)) != len({id(o) for o in off}):
         bad("two offspring of %s share one fitness object" % which)
+    # ... and of each other: no mutable object reachable from two different offspring objects
+    owner = {}
+    distinct_off = list({id(o): o for o in off}.values())
+    for o in distinct_off:
+        for k, v in mutable_ids(o).items():
+            if k in owner and owner[k] is not o:
+                bad("two offspring of %s share mutable state" % which, shared=type(v).__name__)
+                break
+            owner[k] = o
+    for i1 in range(len(distinct_off)):
+        for i2 in range(i1 + 1, len(distinct_off)):
+            if shares_buffer(distinct_off[i1], distinct_off[i2]):
+                bad("two offspring of %s share one numpy buffer" % which)
     # (4) varied => invalid ; (5) valid => copy of an input
     snaps = list(before.values())
     for idx, o in enumerate(off):
@@ -370,6 +398,25 @@ def get_classes():
 
 # --------------------------------------------------------------------------- instrumented cases
 def instrumented_case(run, which, objs, fits, pop_idx, lam, cxpb, mutpb, mks, uks, proxy, terms, cases):
+    """One instrumented case; an exception while driving or observing it never aborts the run: it is recorded
+    as a disagreement for this case (the oracle has normally already judged what DEAP returned)."""
+    n0 = len(terms)
+    try:
+        return _instrumented_case(run, which, objs, fits, pop_idx, lam, cxpb, mutpb, mks, uks, proxy, terms, cases)
+    except Exception:       # noqa
+        import traceback
+        case = {"kind": which, "objs": objs, "fits": fits, "pop": pop_idx, "lambda": lam, "cxpb": cxpb, "mutpb": mutpb,
+                "draws": list(proxy.log), "mate_kinds": mks, "mutate_kinds": uks,
+                "harness_exception": traceback.format_exc()[-1500:]}
+        del terms[n0:]
+        del cases[n0:]
+        run.disagreements.append({"group": "variation", "index": None, "case": case,
+                                  "what": "the case could not be driven/observed: " + case["harness_exception"][-300:]})
+        run.note_case(case, True)
+        return ("raise", "HarnessException")
+
+
+def _instrumented_case(run, which, objs, fits, pop_idx, lam, cxpb, mutpb, mks, uks, proxy, terms, cases):
     """objs: [(genotype, fitness object index)], fits: [None | [v]]; pop_idx: positions into objs."""
     from deap import base
     creator = get_classes()
@@ -396,7 +443,7 @@ def instrumented_case(run, which, objs, fits, pop_idx, lam, cxpb, mutpb, mks, uk
     tb = base.Toolbox()
     real_clone = tb.clone
     events, varied = [], set()
-    state = {"k": 0}
+    state = {"k": 0, "same_twice": False}
 
     def mk(g, fv):
         n = creator.C02Ind(g)
@@ -404,6 +451,7 @@ def instrumented_case(run, which, objs, fits, pop_idx, lam, cxpb, mutpb, mks, uk
         return n
 
     def clone(x):
+        # whatever is handed over is deep-copied and logged; a non-individual simply gets its own number
         c = real_clone(x)
         events.append("EClone %s %s" % (cnat(canon.uid(x)), cnat(canon.uid(c))))
         return c
@@ -412,6 +460,8 @@ def instrumented_case(run, which, objs, fits, pop_idx, lam, cxpb, mutpb, mks, uk
         k = state["k"]; state["k"] += 1
         ua, ub = canon.uid(a), canon.uid(b)
         r = mate_impl(mks[k] if k < len(mks) else ("id", 0), a, b, mk)
+        if r[0] is r[1]:
+            state["same_twice"] = True
         events.append("EMate %s %s %s %s %s" % (cnat(k), cnat(ua), cnat(ub), cnat(canon.uid(r[0])), cnat(canon.uid(r[1]))))
         varied.update([id(a), id(b), id(r[0]), id(r[1])])
         return r
@@ -438,11 +488,15 @@ def instrumented_case(run, which, objs, fits, pop_idx, lam, cxpb, mutpb, mks, uk
         name = outcome[1] if outcome[1] in ("AssertionError", "ValueError", "IndexError") else "DrawMismatch"
         ores = "(ORaise %s)" % name
         case["outcome"] = outcome[1]
-    oracle(run, which, case, pop, before, pop_ids, outcome, varied, lam, cxpb, mutpb, proxy.log)
-    # final content of every object that existed
+    oracle(run, which, case, pop, before, pop_ids, outcome, varied, lam, cxpb, mutpb, proxy.log,
+           mate_same_twice=state.get("same_twice", False))
+    # final content of every object that existed (something that is not an individual cannot match the model)
     snap = []
     for o in canon.individuals():
-        snap.append("(%s, %s, %s)" % (czl([int(x) for x in o]), cnat(canon.fid(o.fitness)), copt(fitvals(o), czl)))
+        try:
+            snap.append("(%s, %s, %s)" % (czl([int(x) for x in o]), cnat(canon.fid(o.fitness)), copt(fitvals(o), czl)))
+        except Exception:       # noqa
+            snap.append("([(-1)%Z], 0%nat, None)")
     head = "%s %s %s" % (clist(["(%s, %s)" % (czl(g), cnat(r)) for g, r in objs]),
                          clist([copt(f, czl) for f in fits]), cnatl(pop_idx))
     tail = "%s %s %s %s %s %s" % (clist([cdraw(d) for d in proxy.log]), clist([cmk(k) for k in mks]),
@@ -462,7 +516,7 @@ def random_kinds(rng, n, glen):
     mks = [(rng.choice(MATE_KINDS), rng.randint(0, glen)) for _ in range(n)]
     uks = [(rng.choice(MUT_KINDS), rng.randint(0, glen)) for _ in range(n)]
     mks = [("id", 0) if k[0] == "id" else k for k in mks]
-    uks = [k if k[0] in ("inc", "new") else (k[0], 0) for k in uks]
+    uks = [k if k[0] in ("inc", "new", "revert") else (k[0], 0) for k in uks]
     return mks, uks
 
 
@@ -542,7 +596,29 @@ def instrumented_cases(run, terms, cases):
     out = instrumented_case(run, "varOr", objs, fits, [0, 1, 2], 6, 0.0, 0.0, [], [],
                             RandomProxy(rng.getrandbits(32)), terms, cases)
     run.extra_cov["fixed_defect_witness"] = ("varOr(pop, toolbox, 6, 0.0, 0.0) -> %s" %
-                                             (cases[-1]["outcome"],))
+                                             (cases[-1]["outcome"] if cases and out[1] != "HarnessException" else out,))
+    # populations in which one object occupies several slots, with operators that rewrite their argument in place
+    # AND return a new object carrying the old content (what gp.staticLimit does when the limit triggers)
+    for rep_ in range(run.scale(60, 600)):
+        which = "varAnd" if rep_ % 3 != 2 else "varOr"
+        shape = [[0, 1, 0, 2, 1, 0], [0, 0], [0, 0, 0], [1, 0, 1], [0, 1, 1, 0], [2, 2, 1, 0, 2]][rep_ % 6]
+        glen = rng.choice([2, 3])
+        objs, fits = random_heap(rng, 3, glen)
+        if rep_ % 2 == 0:
+            fits = [[rng.randint(0, 5)] for _ in fits]          # all parents evaluated: a stale fitness would show
+        n = len(shape)
+        ncalls = n // 2 + n + 1
+        mks = [(rng.choice(["revert", "revert", "tail", "mixed", "new_first"]), rng.randint(0, glen)) for _ in range(ncalls)]
+        uks = [(rng.choice(["revert", "revert", "new_touch", "inc"]), rng.randint(0, glen - 1)) for _ in range(ncalls)]
+        uks = [k if k[0] in ("inc", "new", "revert") else (k[0], 0) for k in uks]
+        if which == "varAnd":
+            cxpb, mutpb = rng.choice([(0.0, 0.5), (0.0, 0.5), (0.5, 0.5), (1.0, 0.5), (0.0, 1.0)])
+            lam = 0
+        else:
+            cxpb, mutpb = rng.choice([(0.0, 0.5), (0.5, 0.5), (0.3, 0.3)])
+            lam = rng.choice([2, 4, 6])
+        instrumented_case(run, which, objs, fits, shape, lam, cxpb, mutpb, mks, uks,
+                          RandomProxy(rng.getrandbits(32)), terms, cases)
     # negative lambda, failed assertion
     for lam, cxpb, mutpb in [(-1, 0.5, 0.5), (-3, 1.0, 0.0), (2, 0.75, 0.5), (0, 1.0, 0.5), (3, 0.6, 0.41)]:
         objs, fits = random_heap(rng, 3, 3)
@@ -650,6 +726,11 @@ def real_operator_runs(run):
         return creator.C02Tree(gp.genHalfAndHalf(pset, 1, 3)), (lambda: (float(rng.randint(0, 3)),))
 
     expr_mut = partial(gp.genFull, min_=0, max_=2)
+    expr_big = partial(gp.genFull, min_=1, max_=3)
+    height = operator.attrgetter("height")
+    lim3 = gp.staticLimit(key=height, max_value=3)      # population trees have height <= 3: within the limit
+    lim2 = gp.staticLimit(key=height, max_value=2)      # some population trees are already above the limit
+    lim_len = gp.staticLimit(key=len, max_value=7)
     reps = [
         ("list cxTwoPoint/mutFlipBit", mk_list, tools.cxTwoPoint, partial(tools.mutFlipBit, indpb=0.5)),
         ("list cxOnePoint/mutShuffleIndexes", mk_list, tools.cxOnePoint, partial(tools.mutShuffleIndexes, indpb=0.5)),
@@ -662,61 +743,108 @@ def real_operator_runs(run):
         ("PrimitiveTree cxOnePoint/mutUniform", mk_tree, gp.cxOnePoint, partial(gp.mutUniform, expr=expr_mut, pset=pset)),
         ("PrimitiveTree cxOnePointLeafBiased/mutNodeReplacement", mk_tree, partial(gp.cxOnePointLeafBiased, termpb=0.2),
          partial(gp.mutNodeReplacement, pset=pset)),
+        # gp.staticLimit: the wrapped operator edits its argument in place but returns a different object
+        # (a copy of the argument as it was) when the limit triggers
+        ("PrimitiveTree staticLimit(height<=3) cxOnePoint/mutUniform", mk_tree, lim3(gp.cxOnePoint),
+         lim3(partial(gp.mutUniform, expr=expr_big, pset=pset))),
+        ("PrimitiveTree staticLimit(len<=7) cxOnePointLeafBiased/mutInsert", mk_tree,
+         lim_len(partial(gp.cxOnePointLeafBiased, termpb=0.2)), lim_len(partial(gp.mutInsert, pset=pset))),
+        ("PrimitiveTree staticLimit(height<=2, some trees above) cxOnePoint/mutUniform", mk_tree, lim2(gp.cxOnePoint),
+         lim2(partial(gp.mutUniform, expr=expr_big, pset=pset))),
     ]
+    dup_shapes = [[0, 1, 0, 2, 1, 0], [0, 0], [0, 1, 1, 0], [0, 0, 0], [1, 0, 1], [2, 2, 1, 0, 2]]
+    stats = {"runs": 0, "with_repeated_members": 0, "mate_returned_same_object_twice": 0, "new_object_returned": 0}
+
+    def one_run(name, mkind_, mate, mutate, it):
+        limited = "staticLimit" in name
+        which = "varAnd" if it % 2 == 0 else "varOr"
+        n = [0, 1, 2, 3, 4, 6][it % 6] if it < 24 else rng.randint(0, 7)
+        L = rng.randint(3, 6)
+        shape = None
+        if (limited and it % 4 != 3) or (not limited and it % 5 == 4):
+            shape = dup_shapes[it % len(dup_shapes)]        # one object in several slots of the population
+            n = len(shape)
+        distinct = []
+        for _ in range(max(n, 1)):
+            ind, fv = mkind_(L)
+            if rng.random() < (0.9 if shape else 0.6):
+                ind.fitness.values = fv()
+            distinct.append(ind)
+        pop = [distinct[i] for i in range(n)]
+        if shape is not None:
+            pop = [distinct[i] for i in shape]
+        elif n and rng.random() < 0.3:
+            pop = [distinct[rng.randrange(n)] for _ in range(n)]
+        if which == "varAnd":
+            cxpb, mutpb = rng.choice([(0.0, 0.0), (1.0, 1.0), (1.0, 0.0), (0.0, 1.0), (0.5, 0.5), (0.7, 0.2), (0.0, 0.5)])
+            if shape is not None and it % 2 == 0 and it % 3 == 0:
+                cxpb, mutpb = 0.0, 0.5
+            lam = 0
+        else:
+            cxpb, mutpb = rng.choice([(0.0, 0.0), (1.0, 0.0), (0.0, 1.0), (0.5, 0.5), (0.3, 0.3), (0.6, 0.4)])
+            lam = rng.choice([0, 1, 2, 5, 9])
+        tb = base.Toolbox()
+        varied = set()
+        keep = []
+        flags = {"same_twice": False}
+
+        def w_mate(a, b):
+            r = mate(a, b)
+            keep.extend([a, b, r[0], r[1]])
+            varied.update([id(a), id(b), id(r[0]), id(r[1])])
+            if r[0] is r[1]:
+                flags["same_twice"] = True
+            if r[0] is not a and r[0] is not b:
+                stats["new_object_returned"] += 1
+            return r
+
+        def w_mut(a):
+            r = mutate(a)
+            keep.extend([a, r[0]])
+            varied.update([id(a), id(r[0])])
+            if r[0] is not a:
+                stats["new_object_returned"] += 1
+            return r
+
+        tb.register("mate", w_mate)
+        tb.register("mutate", w_mut)
+        seed = rng.getrandbits(32)
+        _pyrandom.seed(seed)
+        numpy.random.seed(seed % (2 ** 32))
+        before = {id(p): deep_snapshot(p) for p in pop}
+        pop_ids = [id(p) for p in pop]
+        proxy = RandomProxy(rng.getrandbits(32))
+        outcome = call_variation(which, pop, tb, lam, cxpb, mutpb, proxy)
+        slot_of = {}
+        for p in pop:
+            slot_of.setdefault(id(p), len(slot_of))
+        case = {"kind": "real-operators", "which": which, "representation": name, "n": n, "lambda": lam,
+                "cxpb": cxpb, "mutpb": mutpb, "seed": seed,
+                "population_slots": [slot_of[id(p)] for p in pop],
+                "population": [before[id(p)]["geno"][:2] + (before[id(p)]["values"],) for p in pop],
+                "outcome": outcome[1] if outcome[0] == "raise" else len(outcome[1])}
+        oracle(run, which, case, pop, before, pop_ids, outcome, varied, lam, cxpb, mutpb, proxy.log,
+               mate_same_twice=flags["same_twice"])
+        stats["runs"] += 1
+        stats["with_repeated_members"] += int(len(slot_of) < len(pop))
+        stats["mate_returned_same_object_twice"] += int(flags["same_twice"])
+        run.note_case(case, bool(proxy.log), sample=case if it == 7 else None)
+
     count = 0
     per = run.scale(40, 400)
     for name, mkind_, mate, mutate in reps:
         for it in range(per):
-            which = "varAnd" if it % 2 == 0 else "varOr"
-            n = [0, 1, 2, 3, 4, 6][it % 6] if it < 24 else rng.randint(0, 7)
-            L = rng.randint(3, 6)
-            distinct = []
-            for _ in range(max(n, 1)):
-                ind, fv = mkind_(L)
-                if rng.random() < 0.6:
-                    ind.fitness.values = fv()
-                distinct.append(ind)
-            pop = [distinct[i] for i in range(n)]
-            if n and rng.random() < 0.3:
-                pop = [distinct[rng.randrange(n)] for _ in range(n)]
-            if which == "varAnd":
-                cxpb, mutpb = rng.choice([(0.0, 0.0), (1.0, 1.0), (1.0, 0.0), (0.0, 1.0), (0.5, 0.5), (0.7, 0.2)])
-                lam = 0
-            else:
-                cxpb, mutpb = rng.choice([(0.0, 0.0), (1.0, 0.0), (0.0, 1.0), (0.5, 0.5), (0.3, 0.3), (0.6, 0.4)])
-                lam = rng.choice([0, 1, 2, 5, 9])
-            tb = base.Toolbox()
-            varied = set()
-            keep = []
-
-            def w_mate(a, b, mate=mate):
-                r = mate(a, b)
-                keep.extend([a, b, r[0], r[1]])
-                varied.update([id(a), id(b), id(r[0]), id(r[1])])
-                return r
-
-            def w_mut(a, mutate=mutate):
-                r = mutate(a)
-                keep.extend([a, r[0]])
-                varied.update([id(a), id(r[0])])
-                return r
-
-            tb.register("mate", w_mate)
-            tb.register("mutate", w_mut)
-            seed = rng.getrandbits(32)
-            _pyrandom.seed(seed)
-            numpy.random.seed(seed % (2 ** 32))
-            before = {id(p): deep_snapshot(p) for p in pop}
-            pop_ids = [id(p) for p in pop]
-            proxy = RandomProxy(rng.getrandbits(32))
-            outcome = call_variation(which, pop, tb, lam, cxpb, mutpb, proxy)
-            case = {"kind": "real-operators", "which": which, "representation": name, "n": n, "lambda": lam,
-                    "cxpb": cxpb, "mutpb": mutpb, "seed": seed,
-                    "population": [before[id(p)]["geno"][:2] + (before[id(p)]["values"],) for p in pop],
-                    "outcome": outcome[1] if outcome[0] == "raise" else len(outcome[1])}
-            oracle(run, which, case, pop, before, pop_ids, outcome, varied, lam, cxpb, mutpb, proxy.log)
-            run.note_case(case, bool(proxy.log), sample=case if it == 7 else None)
+            try:
+                one_run(name, mkind_, mate, mutate, it)
+            except Exception:       # noqa -- never abort the run because one case could not be driven
+                import traceback
+                tbk = traceback.format_exc()[-1500:]
+                case = {"kind": "real-operators", "representation": name, "iteration": it, "harness_exception": tbk}
+                run.disagreements.append({"group": "real-operators", "index": None, "case": case,
+                                          "what": "the case could not be driven/observed: " + tbk[-300:]})
+                run.note_case(case, True)
             count += 1
+    run.extra_cov["real_operator_stats"] = stats
     return count
 
 
@@ -763,9 +891,11 @@ def main(run):
                 "forced, boundary draws u == p included), varOr on sizes 0..4 x lambda 0..3(4) x every crossover/mutation/"
                 "reproduction pattern (boundaries of cxpb and of the float sum cxpb+mutpb included, too small populations raising), "
                 "negative lambda, failed assertion; seeded random cases up to size 14 with unscripted draws; operators are "
-                "7 mate kinds x 5 mutate kinds (in place / new objects / swapped / fitness-assigning) chosen per call; populations with "
-                "repeated members and with parents sharing one fitness object. real operators: 10 representation/operator "
-                "pairs (list, array 'b'/'d', numpy, nested list, PrimitiveTree). A case is distinct by its full input "
+                "8 mate kinds x 6 mutate kinds (in place / new objects / swapped / fitness-assigning / in place AND returning a new copy of "
+                "the old argument, as gp.staticLimit does) chosen per call; populations with repeated members (one object in several "
+                "slots, e.g. [a,b,a,c,b,a]) and with parents sharing one fitness object. real operators: 13 representation/operator "
+                "pairs (list, array 'b'/'d', numpy, nested list, PrimitiveTree, PrimitiveTree operators wrapped in gp.staticLimit "
+                "with small height/size limits on populations with repeated members). A case is distinct by its full input "
                 "(objects, population, probabilities, draw log, operator kinds); non-trivial = at least one clone/operator "
                 "call happened or the call raised.")
     run.trusted += ["Coq 8.16.1 kernel and vm_compute",
